@@ -135,7 +135,7 @@ func (h *hx) replaceAllEmpty(x *ast.CallExpr) (string, bool) {
 	if !ok || len(empty.Elts) != 0 {
 		return "", false
 	}
-	return "(.call " + leanStr("re.DeleteAll:"+re.Name) + " [" + h.expr(conv.Args[0]) + "])", true
+	return "(.reDelete " + leanStr(re.Name) + " " + h.expr(conv.Args[0]) + ")", true
 }
 
 func (h *hx) call(x *ast.CallExpr) string {
@@ -156,7 +156,7 @@ func (h *hx) call(x *ast.CallExpr) string {
 			return "(.call " + leanStr(fn.Name) + " " + h.exprList(x.Args) + ")"
 		default:
 			if strings.HasSuffix(fn.Name, "Handler") && len(x.Args) == 1 {
-				return "(.call " + leanStr(fn.Name) + " " + h.exprList(x.Args) + ")"
+				return "(.handler " + leanStr(fn.Name) + " " + h.expr(x.Args[0]) + ")"
 			}
 		}
 	case *ast.SelectorExpr:
@@ -171,8 +171,10 @@ func (h *hx) call(x *ast.CallExpr) string {
 			}
 		} else if h.regexes[recv.Name] && len(x.Args) == 1 {
 			switch fn.Sel.Name {
-			case "MatchString", "FindString":
-				return "(.call " + leanStr("re."+fn.Sel.Name+":"+recv.Name) + " " + h.exprList(x.Args) + ")"
+			case "MatchString":
+				return "(.reMatch " + leanStr(recv.Name) + " " + h.expr(x.Args[0]) + ")"
+			case "FindString":
+				return "(.reFind " + leanStr(recv.Name) + " " + h.expr(x.Args[0]) + ")"
 			}
 		}
 	}
